@@ -7,4 +7,5 @@ CandsDef == [n \in Node |-> IF n = r1 THEN [relays |-> <<r2>>, exits |-> <<x>>]
                             ELSE IF n = r2 THEN [relays |-> <<r1>>, exits |-> <<x>>]
                             ELSE [relays |-> <<r1, r2>>, exits |-> <<x>>]]
 FirstHopsDef == [n \in Node |-> <<r1>>]
+CandsSmall == [n \in Node |-> [relays |-> <<>>, exits |-> <<x>>]]
 =============================================================================
